@@ -295,6 +295,23 @@ PROPS['C22'] = dict(
     explanation='The tick is loop-free; the two clock reads are two ghost instants, so "all timelines" reduces to all values of four timestamps and the state.',
 )
 
+PROPS['C18'] = dict(
+    units=['k_rtx'], level='proof', design_ref='6/C18',
+    technique='CBMC harness contracts on Session::retrans_callback (per stored record and for the completion call) and Session::handle_resend_request extracted from the clang AST of '
+              'runtime/session.cpp, with a ghost coverage counter (first number of the requested range not yet answered) and a ghost send log; the persister\'s range protocol, message '
+              'generation and send() are assumed models',
+    text='Per callback (proved-modular, for every request range, coverage state, record number and next outbound number): for a stored record s at or after the first unanswered number cov, a '
+         'GapFill is sent exactly when s > cov, with MsgSeqNum cov (the first number of the gap -- the obligation that failed before fix eeab569) and NewSeqNo s, then the stored message s is sent '
+         'as a replay, coverage advances to s + 1, and the session\'s own numbering is untouched; on completion one GapFill with MsgSeqNum cov is sent whose NewSeqNo is above cov and not below '
+         'the number the session would use next, the next outbound number becomes that NewSeqNo and the state returns to continuous. The request handler ignores a request while a replay is in '
+         'progress, rejects Begin > End (End != 0) or Begin = 0, hands a valid range unchanged to the persister, and without a persister gap-fills the whole range. By induction over the '
+         'persister\'s callback protocol (ASSUMED: ascending stored records of the range, then completion) every number of the range is answered exactly once, in ascending order. '
+         'NOT decided: that protocol itself (MemoryPersister/FilePersister::get(from,to,..)), PossDupFlag / OrigSendingTime / original MsgSeqNum on the replays (Session::send_process), the bytes of the replayed body.',
+    note='persister range protocol, generate_sequence_reset, Message::factory and send are ASSUMED models; numbers below 2^31 in the request handler (it computes in int)',
+    trusted_base=COMMON_TRUST,
+    explanation='The whole-range statement is an induction over the callback sequence; the inductive step is the per-callback contract over the ghost coverage counter.',
+)
+
 # ---------------------------------------------------------------- native replayers
 import os
 from vlib import replay as _rp
@@ -447,7 +464,7 @@ def _replay_k_seq(oid, inputs, trace, wd):
     exe = _rp.build_native(os.path.join(_rp.VERIF, 'replay', 'k_seq.cpp'), os.path.join(wd, 'replay_k_seq'), sanitize=False, timeout=900,
                            extra=['/repo/utests/mockConnection.cpp', '-I/repo/utests', '-L/repo/utests/.libs', '-lutest', '-L/repo/runtime/.libs', '-lfix8',
                                   '-Wl,-rpath,/repo/utests/.libs', '-Wl,-rpath,/repo/runtime/.libs'])
-    which = 'second_gap' if 'resend_pending' in oid else 'logon_gap' if 'logon_with_a_higher' in oid else 'tick' if 'C22' in oid else 'gate'
+    which = 'second_gap' if 'resend_pending' in oid else 'logon_gap' if 'logon_with_a_higher' in oid else 'tick' if 'C22' in oid else 'resend' if 'C18' in oid else 'gate'
     os.makedirs(os.path.join(wd, 'seqscratch'), exist_ok=True)
     import subprocess
     p = subprocess.run([exe, 'search', which], cwd=os.path.join(wd, 'seqscratch'), stdout=subprocess.PIPE, stderr=subprocess.STDOUT, text=True, timeout=300)
@@ -468,6 +485,7 @@ def _replay_k_tok(oid, inputs, trace, wd):
 replayers['k_tok'] = _replay_k_tok
 replayers['k_seq'] = _replay_k_seq
 replayers['k_hb'] = _replay_k_seq
+replayers['k_rtx'] = _replay_k_seq
 replayers['k_mper'] = _replay_k_mper
 replayers['k_enc'] = _replay_k_enc
 replayers['k_sched'] = _replay_k_sched
